@@ -159,6 +159,7 @@ pub fn decode_range(data: &[u8]) -> Option<c03::Case> {
         plan: vec![],
         headers: vec![],
         if_range: sel % 5 == 0,
+        noop: (sel % 7) % 5,
     })
 }
 
